@@ -157,6 +157,7 @@ type Contracts struct {
 
 // WritersDecl: `writers [tags] T.f in F1, F2` - only the listed functions may store to field T.f (syntactic, whole module).
 type WritersDecl struct {
+	LockFree bool // `lockfree [tags] T.m in F...`: the listed functions and everything they call in the module never lock T.m
 	Tags  []string
 	Field string // qualified T.f
 	Funcs []string
@@ -674,8 +675,8 @@ func (cs *Contracts) loadContractFile(path, pkgPath string, short map[string]str
 				return err
 			}
 			cs.GlobalInvs[pkgPath] = append(cs.GlobalInvs[pkgPath], c)
-		case "writers":
-			wd := &WritersDecl{Src: rest, Pkg: pkgPath}
+		case "writers", "lockfree":
+			wd := &WritersDecl{Src: rest, Pkg: pkgPath, LockFree: word == "lockfree"}
 			r := rest
 			if m := reTags.FindStringSubmatch(r); m != nil {
 				for _, t := range strings.Split(m[1], ",") {
@@ -685,7 +686,7 @@ func (cs *Contracts) loadContractFile(path, pkgPath string, short map[string]str
 			}
 			i := strings.Index(r, " in ")
 			if i < 0 {
-				return fail("writers T.f in F1, F2")
+				return fail("%s T.f in F1, F2", word)
 			}
 			f := strings.TrimSpace(r[:i])
 			k := strings.LastIndex(f, ".")
